@@ -596,6 +596,12 @@ class PulseSequence:
 
         if control_matrix is None:
             control_matrix = self.get_control_matrix(omega, show_progressbar, cache_intermediates)
+        else:
+            control_matrix = np.asarray(control_matrix)
+            required_shape = (len(self.n_opers), len(self.basis), len(omega))
+            if control_matrix.ndim not in (3, 4) or control_matrix.shape[-3:] != required_shape:
+                raise ValueError(f'Expected control_matrix to be of shape ([n_pls,] {required_shape}), '
+                                 + f'not {control_matrix.shape}.')
 
         self.omega = omega
         if control_matrix.ndim == 4:
@@ -805,6 +811,17 @@ class PulseSequence:
                     self.n_opers, self.n_coeffs, self.dt, self._intermediates, show_progressbar
                 )
 
+        else:
+            filter_function = np.asarray(filter_function)
+            n_nops, n_basis = len(self.n_opers), len(self.basis)
+            if order == 1 and which == 'fidelity':
+                required_shape = (n_nops, n_nops, len(omega))
+            else:
+                required_shape = (n_nops, n_nops, n_basis, n_basis, len(omega))
+            if filter_function.shape != required_shape:
+                raise ValueError(f'Expected filter_function to be of shape {required_shape}, '
+                                 + f'not {filter_function.shape}.')
+
         self.omega = omega
         if order == 1:
             if which == 'fidelity':
@@ -1008,6 +1025,9 @@ class PulseSequence:
 
         if total_phases is None:
             total_phases = util.cexp(np.asarray(omega)*self.tau)
+        elif np.shape(total_phases) != np.shape(omega):
+            raise ValueError(f'Expected total_phases to be of shape {np.shape(omega)}, '
+                             + f'not {np.shape(total_phases)}.')
 
         self.omega = omega
         self._total_phases = total_phases
